@@ -1,4 +1,150 @@
-import SdbModel.Model.Table
-/-! # C06 — theorems under construction (see DESIGN.md section 4) -/
+import SdbModel.Lemmas.Serial
+import SdbModel.Generated.Protocol
+
+/-!
+# C06 — Watch channels: no missed change, no early or spurious-abort wake-up
+
+> A watch channel returned by a query is closed no later than the return of the
+> Commit that changes that query's result (…; for table-wide watches, any change
+> to the table).  It is never closed by an aborted transaction, is not already
+> closed when handed out by a fresh snapshot query, and never closes before the
+> change is visible: a read transaction taken after observing the channel closed
+> sees a newer table revision than the snapshot the channel came from.
+
+What is proved here is the ORDERING half, for every interleaving of any number
+of transactions (Model.Serial): a table-level watch channel is identified with
+the version `(table, revision)` of the table it was handed out with; the commit
+of a transaction `t` closes the channels `(x, t.old x)` of the versions it
+replaced, in its notify step, which the regenerated protocol places after the
+root store and before the table locks are released and Commit returns.  Which
+channels a commit must close per key / prefix is the subject of C12 (Model.Art)
+and of the table-suite oracle.
+-/
 namespace Sdb
+open Serial
+
+/-- channels a transaction closes when it notifies: the versions of its tables
+    that it replaced (nothing for an aborted transaction) -/
+def Serial.closes (t : Txn) : List (Nat × Nat) :=
+  if t.commit ∧ (t.phase = .stored ∨ t.phase = .done) then t.tabs.map fun x => (x, t.old x) else []
+
+/-- the new versions of a committed transaction's tables are visible before it
+    notifies and stay visible: the invariant behind "never closes early" -/
+def Serial.Newer (s : State) : Prop :=
+  ∀ (i : Nat) (t : Txn), s.txns[i]? = some t → (t.phase = .stored ∨ t.phase = .done) → t.commit = true →
+    ∀ x ∈ t.tabs, t.old x < s.root x
+
+private theorem newer_step (s s' : State) (inv : Inv s) (h : Newer s) (hst : Step s s') : Newer s' := by
+  cases hst with
+  | acquire i t k tb hi hp hk hfree =>
+    intro j u hj hph hc x hx
+    rw [getElem?_setTxn _ _ _ _ ⟨t, hi⟩] at hj
+    split at hj
+    · simp only [Option.some.injEq] at hj; subst hj; simp at hph
+    · exact h j u hj hph hc x hx
+  | load i t hi hp =>
+    intro j u hj hph hc x hx
+    rw [getElem?_setTxn _ _ _ _ ⟨t, hi⟩] at hj
+    split at hj
+    · simp only [Option.some.injEq] at hj; subst hj; simp at hph
+    · exact h j u hj hph hc x hx
+  | store i t hi hp hc' =>
+    intro j u hj hph hc x hx
+    rw [getElem?_setTxn _ _ _ _ ⟨t, hi⟩] at hj
+    have hsees := inv.sees i t hi hp
+    split at hj
+    · simp only [Option.some.injEq] at hj; subst hj
+      simp only at hx ⊢
+      simp [hx]
+    · have := h j u hj hph hc x hx
+      simp only
+      split
+      · rename_i hxt
+        rw [hsees x hxt]; omega
+      · exact this
+  | abort i t hi hp hc' =>
+    intro j u hj hph hc x hx
+    rw [getElem?_setTxn _ _ _ _ ⟨t, hi⟩] at hj
+    split at hj
+    · simp only [Option.some.injEq] at hj; subst hj; simp [hc'] at hc
+    · exact h j u hj hph hc x hx
+  | release i t tb hi hp hk =>
+    intro j u hj hph hc x hx
+    rw [getElem?_setTxn _ _ _ _ ⟨t, hi⟩] at hj
+    split at hj
+    · simp only [Option.some.injEq] at hj; subst hj
+      exact h i t hi (Or.inl hp) hc x hx
+    · exact h j u hj hph hc x hx
+  | finish i t hi hp hk =>
+    intro j u hj hph hc x hx
+    rw [getElem?_setTxn _ _ _ _ ⟨t, hi⟩] at hj
+    split at hj
+    · simp only [Option.some.injEq] at hj; subst hj
+      exact h i t hi (Or.inl hp) hc x hx
+    · exact h j u hj hph hc x hx
+  | spawn t ha hp hr =>
+    intro j u hj hph hc x hx
+    rw [List.getElem?_append] at hj
+    split at hj
+    · exact h j u hj hph hc x hx
+    · rw [List.getElem?_singleton] at hj
+      split at hj
+      · simp only [Option.some.injEq] at hj; subst hj; simp [hp] at hph
+      · simp at hj
+
+private theorem newer_reachable (s : State) (hr : Reachable s) : Newer s := by
+  induction hr with
+  | init => intro i t hi; simp at hi
+  | step s s' hr hst ih => exact newer_step s s' (inv_reachable s hr) ih hst
+
+/-- **never closes before the change is visible**: whenever a channel
+    `(x, r)` has been (or is being) closed by a commit, every read transaction
+    taken from then on sees table `x` at a revision newer than `r` -/
+theorem C06_closed_implies_newer_revision (s : State) (hr : Reachable s) (i : Nat) (t : Txn)
+    (hi : s.txns[i]? = some t) (x r : Nat) (hc : (x, r) ∈ closes t) : r < s.root x := by
+  unfold closes at hc
+  split at hc
+  · rename_i hcond
+    simp only [List.mem_map, Prod.mk.injEq] at hc
+    obtain ⟨y, hy, rfl, rfl⟩ := hc
+    exact newer_reachable s hr i t hi hcond.2 hcond.1 y hy
+  · simp at hc
+
+/-- **not already closed when handed out by a fresh snapshot**: the channel of
+    the current version of a table has not been closed by anybody -/
+theorem C06_fresh_channel_open (s : State) (hr : Reachable s) (i : Nat) (t : Txn)
+    (hi : s.txns[i]? = some t) (x : Nat) : (x, s.root x) ∉ closes t := by
+  intro hc
+  have := C06_closed_implies_newer_revision s hr i t hi x (s.root x) hc
+  omega
+
+/-- **never closed by an aborted transaction** -/
+theorem C06_abort_closes_nothing (t : Txn) (h : t.commit = false) : closes t = [] := by
+  simp [closes, h]
+
+/-- **closed no later than the return of Commit**, after the store, while the
+    tables are still held; Abort has no notify step at all — read off the
+    CURRENT source (regenerated protocol) -/
+theorem C06_notify_between_store_and_return :
+    Conc.idx Gen.protocol.commit .storeRoot < Conc.idx Gen.protocol.commit .notify ∧
+    Conc.idx Gen.protocol.commit .notify < Conc.idx Gen.protocol.commit .unlockTables ∧
+    Conc.idx Gen.protocol.commit .notify < Gen.protocol.commit.length ∧
+    Gen.protocol.abort.contains .notify = false ∧ Gen.protocol.abort.contains .storeRoot = false := by decide
+
+/-- a committed transaction that changed table `x` does close the channel of the version it replaced -/
+theorem C06_commit_closes_replaced_version (t : Txn) (hc : t.commit = true)
+    (hp : t.phase = .stored ∨ t.phase = .done) (x : Nat) (hx : x ∈ t.tabs) : (x, t.old x) ∈ closes t := by
+  simp only [closes, hc, hp, and_self, if_true, List.mem_map]
+  exact ⟨x, hx, rfl⟩
+
+/-! ## non-vacuity -/
+example : ∃ s, Reachable s ∧ ∃ t, s.txns[0]? = some t ∧ (0, 0) ∈ closes t ∧ s.root 0 = 1 := by
+  let t : Txn := { tabs := [0] }
+  have s0 : Reachable ({} : State) := .init
+  have s1 := Reachable.step _ _ s0 (Step.spawn {} t (by trivial) rfl rfl)
+  have s2 := Reachable.step _ _ s1 (Step.acquire _ 0 t 0 0 (by rfl) rfl (by rfl) (by rfl))
+  have s3 := Reachable.step _ _ s2 (Step.load _ 0 { t with phase := .acquiring 1 } (by rfl) (by rfl))
+  have s4 := Reachable.step _ _ s3 (Step.store _ 0 _ (by rfl) rfl rfl)
+  exact ⟨_, s4, _, by rfl, by simp [closes, t], by simp [t]⟩
+
 end Sdb
